@@ -182,6 +182,19 @@ impl Num {
         self.up.is_pos() && !self.is_nan()
     }
 
+    /// Size of the number: 32-bit limbs of numerator and denominator together
+    ///
+    /// # Examples
+    ///
+    /// ```
+    /// use hyeong::number::num::Num;
+    ///
+    /// assert_eq!(2, Num::new(1, 2).size());
+    /// ```
+    pub fn size(&self) -> usize {
+        self.up.limbs() + self.down.limbs()
+    }
+
     /// Check if the number is NaN
     ///
     /// # Examples
